@@ -6,7 +6,7 @@ Tr == ndJsonDeserialize("c16_trace.ndjson")
 Chunk == 100
 Why(ev) ==
   IF ev.panic THEN <<[t |-> "*", sym |-> "panic"]>>
-  ELSE LET w == FlattenWhy(ev.pre, ev.post) \cup (IF ev.post2 = ev.post THEN {} ELSE {[t |-> "*", sym |-> "not-idempotent"]})
+  ELSE LET w == FlattenWhy(ev.pre, ev.post) \cup (IF Diff(ev.post, ev.post2) = <<>> THEN {} ELSE {[t |-> "*", sym |-> "not-idempotent"]})
        IN IF w = {} THEN <<>> ELSE <<CHOOSE x \in w : TRUE>>
 INSTANCE EventJudge
 TraceSpec == JInit /\ orig = NilItem /\ val = NilItem /\ phase = "judge"
